@@ -667,3 +667,13 @@ def after_success(func_node, try_stmt) -> list:
                 if isinstance(bl, list) and try_stmt in bl:
                     out += bl[bl.index(try_stmt) + 1:]
     return [x for x in out if not A.inert(x)]
+
+
+def relabelled(ctx, old: str, new: str, fn, *args, **kw):
+    """Run another property's rule function and file its obligations under this property's rule id: the same structural fact is a
+    necessary condition of both properties (the DESIGN section of the borrowing property says why)."""
+    n0 = len(ctx.obligations)
+    fn(ctx, *args, **kw)
+    for o in ctx.obligations[n0:]:
+        o["rule"] = o["rule"].replace(old, new)
+    ctx._min = {k.replace(old, new): v for k, v in ctx._min.items()}
